@@ -4,7 +4,7 @@
    run-time side = Model.rt_bin / rt_un: the C the generator emits, under Base.CInt (Gnu mode),
    with the helper functions taken verbatim from the generated C (Gen.v). *)
 From Base Require Import CInt.
-From C02 Require Import Gen Model ProofsHelpers ProofsHelpersCmp ProofsDiv Proofs.
+From C02 Require Import Gen Model ProofsHelpers ProofsHelpersAsr ProofsHelpersCmp ProofsHelpersEq ProofsDiv Proofs.
 Local Open Scope Z_scope.
 
 (* rt_is_modular, + - * and unary minus: for every pair of operand types and ALL integer operand
